@@ -541,6 +541,8 @@ def run_paths(rep, K, tmp, rng, n, secs, only=None):
             else:
                 K.add('path-intersect-exception-%s' % type(val).__name__, 'C11: Path.intersect raised %r' % (val,), replay, scale)
             continue
+        if not val:
+            continue
         lens1 = [float(x) for x in path1._lengths]; lens2 = [float(x) for x in path2._lengths]
         size = max(max(ic.seg_size(s) for s in path1), max(ic.seg_size(s) for s in path2))
         for (T1, seg1, t1), (T2, seg2, t2) in val:
